@@ -20,7 +20,9 @@ RULE = ("Seeded generation. Constructions: decimal degrees (ints up to 1e15, "
         "non-integer powers) result on the operands' stored floats. icontract "
         "class invariant -360 < value < 360 active on every public Angle "
         "method, also during a workload of real library calls (Coordinates, "
-        "Sun, Moon) and while the repository's own 250 tests run (pytest "
+        "Sun, Moon), along random sequences of views and mutators on one "
+        "object (each view compared with a fresh object of the same value) "
+        "and while the repository's own 250 tests run (pytest "
         "plugin). Non-trivial = |value| >= 360 before reduction, within 2 "
         "ulp of a multiple of 360 or of 0, negative piece not first, "
         "overflowing minutes/seconds, reflected or in-place operator, zero "
@@ -76,7 +78,7 @@ REQUIRED_CLAUSES = ["construct.range", "construct.sign", "construct.congruent",
                     "op.range", "op.congruent", "op.operands-unchanged",
                     "op.zero-division", "mod.remainder", "to_positive",
                     "rad==deg*pi/180", "get_ra==deg/15",
-                    "invariant.Angle-range"]
+                    "invariant.Angle-range", "history.views==fresh-object"]
 REQUIRED_CONTRACTS = ["invariant:Angle(-360<deg<360)",
                       "suite:invariant:Angle(-360<deg<360)"]
 
@@ -615,7 +617,66 @@ def directed(mon):
         case_ra(mon, x)
 
 
-CASES = {"decimal": case_decimal, "radians": case_radians, "ra": case_ra,
+def all_views(a):
+    return (a(), float(a), a.rad(), a.get_ra(), a.dms_tuple(), a.ra_tuple(),
+            a.dms_str(), a.ra_str(False, 3), str(a), int(a))
+
+
+def case_history(mon, seedval):
+    """One Angle object through a random sequence of views and documented
+    mutators: after every step each view must equal that of a fresh Angle
+    holding the same value (no state other than the value and tolerance)."""
+    from pymeeus.Angle import Angle
+    rng = random.Random(seedval)
+    a = Angle(rng.uniform(-359, 359))
+    steps = []
+    for _ in range(8):
+        mon.evals += 1
+        op = rng.choice(("views", "views", "to_positive", "set", "set_ra",
+                         "set_radians", "set_dms", "iadd", "imul", "neg",
+                         "set_tolerance"))
+        try:
+            if op == "views":
+                all_views(a)
+            elif op == "to_positive":
+                a.to_positive()
+            elif op == "set":
+                a.set(rng.uniform(-1000, 1000))
+            elif op == "set_ra":
+                a.set_ra(rng.uniform(-30, 30))
+            elif op == "set_radians":
+                a.set_radians(rng.uniform(-7, 7))
+            elif op == "set_dms":
+                a.set(rng.randrange(0, 360), rng.uniform(-59, 59),
+                      rng.uniform(0, 59))
+            elif op == "iadd":
+                a += rng.uniform(-400, 400)
+            elif op == "imul":
+                a *= rng.uniform(-3, 3)
+            elif op == "neg":
+                a = -a
+            else:
+                a.set_tolerance(rng.choice((1e-10, 1e-6, 1e-3, 0.0)))
+            steps.append(op)
+            got = all_views(a)
+            fresh = Angle(a())
+            want = all_views(fresh)
+        except Exception as ex:
+            mon.dev("history.views==fresh-object",
+                    {"seed": seedval, "steps": steps + [op],
+                     "raised": repr(ex)})
+            return
+        ok = got == want
+        mon.check("history.views==fresh-object", ok,
+                  lambda: {"seed": seedval, "steps": list(steps),
+                           "value": a(), "views": repr(got)[:300],
+                           "fresh_object": repr(want)[:300]})
+        if not ok:
+            return
+    mon.cls("object-with-history", ("hist", seedval), steps)
+
+
+CASES = {"history": case_history, "decimal": case_decimal, "radians": case_radians, "ra": case_ra,
          "dms": case_dms, "op": case_op, "library": case_library}
 
 
@@ -691,6 +752,10 @@ def run(mon, spec):
                 p[4] = 0 if p[3] == "int" else 0.0
         mon.begin("op", p)
         case_op(mon, *p)
+    for i in range(spec["n_lib"] * 10):
+        sv = rng.randrange(1 << 30)
+        mon.begin("history", [sv])
+        case_history(mon, sv)
     for i in range(spec["n_lib"]):
         sv = rng.randrange(1 << 30)
         mon.begin("library", [sv])
